@@ -330,7 +330,12 @@ impl SimChain {
                 .output(
                     CellOutput::new_builder()
                         .capacity(Capacity::bytes(1000).unwrap().pack())
-                        .lock(Script::default())
+                        // a lock that is unique per block: every block has its own filter data
+                        .lock(
+                            Script::new_builder()
+                                .args(Bytes::from((id as u64).to_le_bytes().to_vec()).pack())
+                                .build(),
+                        )
                         .build(),
                 )
                 .output_data(Bytes::from(data).pack())
@@ -615,6 +620,51 @@ impl SimChain {
             })
             .collect();
         serde_json::json!({ "pow": self.pow, "blocks": blocks })
+    }
+
+    /// World with transactions and scripts (for the filter / index components).
+    /// txs[t] = [block, index, ins: [[tx, out]...], outs: [[lock, type, cap, dlen]...]] (1-based ids, 0 = none / unknown)
+    pub fn world_json_full(&self) -> serde_json::Value {
+        let mut w = self.world_json();
+        let script_id = |s: &Script| -> i64 {
+            self.scripts.iter().position(|x| x.as_slice() == s.as_slice()).map(|i| i as i64 + 1).unwrap_or(0)
+        };
+        let txs: Vec<serde_json::Value> = self
+            .txs
+            .iter()
+            .map(|t| {
+                let ins: Vec<serde_json::Value> = if t.view.is_cellbase() {
+                    vec![]
+                } else {
+                    t.view
+                        .input_pts_iter()
+                        .map(|op| {
+                            let idx: u32 = op.index().unpack();
+                            serde_json::json!([self.tx_id_of(&op.tx_hash()).map(|i| i as i64 + 1).unwrap_or(0), idx])
+                        })
+                        .collect()
+                };
+                let outs: Vec<serde_json::Value> = t
+                    .view
+                    .outputs_with_data_iter()
+                    .map(|(o, d)| {
+                        let cap: Capacity = o.capacity().unpack();
+                        serde_json::json!([
+                            script_id(&o.lock()),
+                            o.type_().to_opt().map(|s| script_id(&s)).unwrap_or(0),
+                            cap.as_u64() / 100_000_000,
+                            d.len()
+                        ])
+                    })
+                    .collect();
+                serde_json::json!({"b": t.block + 1, "i": t.index, "ins": ins, "outs": outs})
+            })
+            .collect();
+        let btx: Vec<Vec<usize>> = self.blocks.iter().map(|b| b.tx_ids.iter().map(|t| t + 1).collect()).collect();
+        w["txs"] = serde_json::json!(txs);
+        w["btx"] = serde_json::json!(btx);
+        w["nscripts"] = serde_json::json!(self.scripts.len());
+        w
     }
 }
 
